@@ -1008,17 +1008,14 @@ func (e *FnEnc) lookupName(env *Env, name string, phiOver map[*ssa.Phi]Val) (Val
 	if hv, ok := e.ghosts[name]; ok {
 		return Val{T: e.heapIn(env.st, hv), Sort: hv.Sort, Ty: goTypeOfSort(hv.Sort)}, true
 	}
-	for _, p := range e.fn.Params {
-		if p.Name() == name {
-			return e.vals[p], true
+	if env.oldMode {
+		for _, p := range e.fn.Params {
+			if p.Name() == name {
+				return e.vals[p], true
+			}
 		}
 	}
-	for _, p := range e.fn.FreeVars {
-		if p.Name() == name {
-			return e.vals[p], true
-		}
-	}
-	// loop-scoped names
+	// loop-scoped names (a parameter reassigned in a loop is that loop's phi inside loop clauses)
 	if env.loopOrd > 0 && env.loopOrd <= len(e.loopList) {
 		// search this loop, then enclosing loops
 		cands := []*loopInfo{e.loopList[env.loopOrd-1]}
@@ -1072,6 +1069,26 @@ func (e *FnEnc) lookupName(env *Env, name string, phiOver map[*ssa.Phi]Val) (Val
 						}
 					}
 				}
+			}
+		}
+	}
+	// a parameter reassigned on some path is the phi / latest binding carrying its name at the site; otherwise
+	// it is the parameter itself
+	reassigned := false
+	for _, bs := range e.debugNames[name] {
+		if _, isParam := bs.val.(*ssa.Parameter); !isParam {
+			reassigned = true
+		}
+	}
+	if !reassigned || env.site == nil {
+		for _, p := range e.fn.Params {
+			if p.Name() == name {
+				return e.vals[p], true
+			}
+		}
+		for _, p := range e.fn.FreeVars {
+			if p.Name() == name {
+				return e.vals[p], true
 			}
 		}
 	}
@@ -1195,6 +1212,16 @@ func (e *FnEnc) lookupName(env *Env, name string, phiOver map[*ssa.Phi]Val) (Val
 					return e.constVal(c), true
 				}
 			}
+		}
+	}
+	for _, p := range e.fn.Params {
+		if p.Name() == name {
+			return e.vals[p], true
+		}
+	}
+	for _, p := range e.fn.FreeVars {
+		if p.Name() == name {
+			return e.vals[p], true
 		}
 	}
 	// named results stored in cells (functions with defers) are exposed through debug bindings above
